@@ -406,7 +406,59 @@ def native_witness(ctx):
     return core.run_native(open(os.path.join(os.path.dirname(__file__), 'native', 'c13_replay.py')).read(), {})
 
 
+def _frames(ctx):
+    """(1) InstanceConfig.quantified_resources is a function of its arguments and the configuration: it assigns no attribute and
+    mutates no container reached through self or the class (a remembered answer would be served to another configuration or
+    after the configuration changed).  (2) the configuration classes keep `resources` as a LIST: create() builds it with
+    filter_none / a list display / a comprehension, never a lazy one-shot iterator (a second traversal - to_dict() after
+    to_dict(), or billing after serialising - would see no resources)."""
+    import ast as pyast
+
+    src = core.read_repo('batch/batch/instance_config.py')
+    tree = pyast.parse(src)
+    fn = pyvc.find_function(tree, 'InstanceConfig.quantified_resources')
+    writes = []
+    local = {a.arg for a in fn.args.args} | {n.id for n in pyast.walk(fn) if isinstance(n, pyast.Name) and isinstance(n.ctx, pyast.Store)}
+    for n in pyast.walk(fn):
+        tg = []
+        if isinstance(n, pyast.Assign):
+            tg = n.targets
+        elif isinstance(n, (pyast.AugAssign, pyast.AnnAssign)):
+            tg = [n.target]
+        elif isinstance(n, pyast.Delete):
+            tg = n.targets
+        for t in tg:
+            if isinstance(t, (pyast.Attribute, pyast.Subscript)):
+                base = t
+                while isinstance(base, (pyast.Attribute, pyast.Subscript)):
+                    base = base.value
+                if not (isinstance(base, pyast.Name) and base.id in local and base.id != 'self'):
+                    writes.append(pyast.unparse(t))
+        if isinstance(n, pyast.Call) and isinstance(n.func, pyast.Attribute) and n.func.attr in pyvc.MUTATORS:
+            base = n.func.value
+            while isinstance(base, (pyast.Attribute, pyast.Subscript)):
+                base = base.value
+            if not (isinstance(base, pyast.Name) and base.id in local and base.id != 'self'):
+                writes.append(pyast.unparse(n.func))
+    cls = [c for c in tree.body if isinstance(c, pyast.ClassDef) and c.name == 'InstanceConfig'][0]
+    class_state = [pyast.unparse(x)[:60] for x in cls.body if isinstance(x, (pyast.Assign, pyast.AnnAssign)) and getattr(x, 'value', None) is not None and isinstance(x.value, (pyast.Dict, pyast.List, pyast.Set, pyast.Call))]
+    ctx.add(core.decided('C13/InstanceConfig.quantified_resources/frame/writes-no-state', not writes and not class_state, 'writes=%r class-level containers=%r' % (writes, class_state), kind='frame'))
+    for path, cname in (('batch/batch/cloud/gcp/instance_config.py', 'GCPSlimInstanceConfig'), ('batch/batch/cloud/azure/instance_config.py', 'AzureSlimInstanceConfig')):
+        t2 = pyast.parse(core.read_repo(path))
+        cr = pyvc.find_function(t2, cname + '.create')
+        vals = [n.value for n in pyast.walk(cr) if isinstance(n, pyast.Assign) and any(isinstance(t, pyast.Name) and t.id == 'resources' for t in n.targets)]
+        vals += [n.value for n in pyast.walk(cr) if isinstance(n, pyast.AnnAssign) and isinstance(n.target, pyast.Name) and n.target.id == 'resources' and n.value is not None]
+        kw = [k.value for c in pyast.walk(cr) if isinstance(c, pyast.Call) for k in c.keywords if k.arg == 'resources' and not (isinstance(k.value, pyast.Name) and k.value.id == 'resources')]
+
+        def is_list(v):
+            return isinstance(v, (pyast.List, pyast.ListComp)) or (isinstance(v, pyast.Call) and pyvc._dotted(v.func) in ('filter_none', 'list', 'sorted'))
+
+        allv = vals + kw
+        ctx.add(core.decided('C13/%s.create/resources-is-a-list-not-a-one-shot-iterator' % cname, bool(allv) and all(is_list(v) for v in allv), repr([pyast.unparse(v)[:50] for v in allv]), kind='scan'))
+
+
 def build(ctx):
+    _frames(ctx)
     for cloud in CLOUDS:
         resources(ctx, cloud)
     for cloud in CONFIGS:
